@@ -19,8 +19,10 @@
 
 
 seq_t euclidean_distance(seq_t *s1, idx_t l1, seq_t *s2, idx_t l2);
+seq_t euclidean_distance_squared(seq_t *s1, idx_t l1, seq_t *s2, idx_t l2);
 seq_t euclidean_distance_euclidean(seq_t *s1, idx_t l1, seq_t *s2, idx_t l2);
 seq_t euclidean_distance_ndim(seq_t *s1, idx_t l1, seq_t *s2, idx_t l2, int ndim);
+seq_t euclidean_distance_ndim_squared(seq_t *s1, idx_t l1, seq_t *s2, idx_t l2, int ndim);
 seq_t euclidean_distance_ndim_euclidean(seq_t *s1, idx_t l1, seq_t *s2, idx_t l2, int ndim);
 
 #endif /* ed_h */
